@@ -13,6 +13,7 @@ import PyGqlModel.Lemmas.ParseValue
 import PyGqlModel.Lemmas.ParseDocL
 import PyGqlModel.Lemmas.ParseTSE
 import PyGqlModel.Lemmas.ParseTSC
+import PyGqlModel.Lemmas.ParseTSC6
 namespace PyGql.Props.C01
 open PyGql PyGql.Ast PyGql.Parse PyGql.Spec
 
@@ -214,6 +215,26 @@ theorem parseDocument_accepts_iff_executable (fl : Flags) (hx : fl.allowTypeSyst
     returned document. -/
 theorem parse_sound_document : ParseSoundDocument :=
   fun fl toks d h => parseDocument_sound_of fl (fun fuel _ => tsSound fl fuel) toks d h
+
+/-- `parse_complete` IN FULL (exact): documents with executable and type-system definitions and extensions, all 8 flag
+    combinations.  Every well-formed document whose view matches the tokens (spans included) is what `parse` returns. -/
+theorem parse_complete_document : ParseCompleteDocument :=
+  fun fl toks d w h => parseDocument_complete_of fl (fun fuel _ => tsComplete fl fuel) toks d w h
+
+/-- THE FIRST SENTENCE OF C01 at token level: `parse` succeeds exactly when the token list derives from the grammar
+    (is matched by the view of some well-formed document) — for every flag combination. -/
+theorem parseDocument_accepts_iff (fl : Flags) (toks : List Tok) :
+    (∃ d, parseDocument fl toks = .ok d) ↔ ∃ d, wfDocument fl d = true ∧ Matches fl [documentV d] toks :=
+  ⟨fun ⟨d, h⟩ => ⟨d, parse_sound_document fl toks d h⟩,
+   fun ⟨d, w, h⟩ => ⟨d, parse_complete_document fl toks d w h⟩⟩
+
+/-- the parser is a function of the tokens, so the matched well-formed document is unique -/
+theorem matched_document_unique (fl : Flags) (toks : List Tok) (d d' : Document)
+    (w : wfDocument fl d = true) (h : Matches fl [documentV d] toks)
+    (w' : wfDocument fl d' = true) (h' : Matches fl [documentV d'] toks) : d = d' := by
+  have a := parse_complete_document fl toks d w h
+  have b := parse_complete_document fl toks d' w' h'
+  rw [a] at b; cases b; rfl
 
 /-! ## the tables re-extracted from `parser.py` are the grammar's
 
